@@ -6,3 +6,7 @@ CHECKS["C11"] = dict(
     level_note=E1_NOTE,
     parts=[dict(pkg=SCHK, run="^TestC11_StakeLockUnlockExact$", quick=150, thorough=15000, floor=3, timeout_quick=1500)],
 )
+
+# second part: miner and sharder stake pools through the miner contract
+CHECKS["C11"]["parts"].append(dict(pkg="verifharness/checks/minerchk", run="^TestC11_MinerSharderPools$", quick=150, thorough=15000, floor=3))
+CHECKS["C11"]["level_text"] += " A second part drives addToDelegatePool / deleteFromDelegatePool / collect_reward on all miners and sharders (registered through real transactions) interleaved with fee payments that accrue rewards, node settings updates (delegate limit) and kills, with the same exact per-pool and per-balance oracle."
